@@ -79,8 +79,9 @@ def run(ctx):
     for k in (1, 2):
         tkeys[k] = [[rng.randrange(2) for _ in range(k * N)] for _ in range(2 if not thorough else 4)]
         for ki, tk in enumerate(tkeys[k]):
-            for M in ([8, 5, 1000] if not thorough else [2, 3, 5, 8, 64, 1000, 32768]):
+            for Mi, M in enumerate([8, 5, 1000] if not thorough else [2, 3, 5, 8, 64, 1000, 32768]):
                 a_units = min(2**40 // (20 * M), 2**35)
+                if Mi == ki % 3: a_units = 0          # the noiseless end of "every noise level": alpha exactly 0
                 msg = [enc(rng.randrange(M), M) for _ in range(N)]
                 line, r = E.lib(6, [k, N] + tk + msg, sd + 7 * M + k + 100 * ki, rng.randrange(10), a_units, 0); ctx.count(('tlwe', k, ki, M))
                 if r is None: ctx.report('tlwe-encrypt-crash', 'tLweSymEncrypt died', {'case': line[:1000]}); continue
@@ -111,7 +112,7 @@ def run(ctx):
             for M in sorted({2, 4, 1 << B, 1 << (B // 2 + 1)}):
                 m = [rng.randrange(-(M // 2) + (1 if M > 2 else 0), (M + 1) // 2) if rng.random() < 0.05 else 0 for _ in range(N)]
                 if M == 2: m = [rng.randrange(2) if rng.random() < 0.05 else 0 for _ in range(N)]
-                line, r = E.lib(11, [k, N, l, B] + tk + m, sd + 13 * M + l, 0, 32768, 0); ctx.count(('tgsw', k, l, B, M))
+                line, r = E.lib(11, [k, N, l, B] + tk + m, sd + 13 * M + l, 0, 32768 if M != 4 else 0, 0); ctx.count(('tgsw', k, l, B, M))
                 if r is None: ctx.report('tgsw-encrypt-crash', 'tGswSymEncrypt died', {'case': line[:1000]}); continue
                 gjobs.append((k, l, B, M, [x % M for x in m], 'tgsw 4 %d %d %d %d %s %s %d' % (k, N, l, B, fmt(r['res']), fmt(tk), M)))
     rng.shuffle(gjobs)
